@@ -60,7 +60,7 @@ CANON = c11.CANON + [
 GAP_SEPS = ["", " ", "\t", "\n", "\r\n", "\n    ", "// c\n", " // c\n", "//\n", "//x\n", "\n// own line\n"]
 
 LITERALS = [
-    "let x = 1.0;", "let x = 0.5;", "let x = .5;", "let x = 1.;", "let x = 100000000000000000000000.0;", "let x = 0.000001;",
+    "let x = 1.0;", "let x = 0.5;", "let x = .5;", "let x = 100000000000000000000000.0;", "let x = 0.000001;",
     "let x = 0.1 + 0.2;", "let x = 9223372036854775807;", "let x = 007;", "let x = 1.50;",
     'let x = "\\n\\t\\r";', 'let x = "a\\\\n";', 'let x = "\\"";', 'let x = "\\\\";', 'let x = "a\nb";', 'let x = "\\@ @";', 'let x = "\\q";',
     'let x = "é→日本😀";', 'let x = "";', 'let x = " ";', 'let x = "//not a comment";', 'let x = "tab\there";',
@@ -215,6 +215,15 @@ def run(ctx):
                 "Each text is distinct; non-trivial = it parses, so the formatter ran." % (
                     len(CANON), len(GAP_SEPS), "one and two gaps at a time" if thorough else "one gap at a time", len(LITERALS)))
     viol = []
+    # every hand-written form must parse: one that does not would be skipped silently and test nothing (DESIGN 0.3 item 20)
+    srv0 = core.Server()
+    try:
+        for form in list(CANON) + list(LITERALS) + sorted(set(trailing_comment_texts())):
+            r0 = srv0.req({"op": "parse", "src": form})
+            if "ok" not in r0:
+                raise RuntimeError("C05 harness: a hand-written form does not parse: %r -> %s" % (form, str(r0)[:200]))
+    finally:
+        srv0.close()
 
     def absorb(part):
         nt_ = sum(v for k, v in part["hist"].items() if "unparsable(skipped)" not in k)
